@@ -8,6 +8,7 @@ SymCtx = ctxmod.make_symctx_class()
 params = json.loads(sys.argv[3]) if len(sys.argv) > 3 else {}
 fn = prop.HARNESSES[sys.argv[2]]
 def run(ex):
+    lib.reset()
     lib['bitcoin'].SelectParams('mainnet')
     fn(SymCtx(ex, lib), **params)
 ex = core.Explorer(run, max_paths=10**7, max_seconds=float(sys.argv[4]) if len(sys.argv) > 4 else 300, inc_timeout_ms=int(sys.argv[5]) if len(sys.argv) > 5 else 8000)
